@@ -699,7 +699,7 @@ def obligations(tier):
     obs.append(Ob("nj_final_three", __name__, "mk_nj_final", {}, kind="direct", timeout=300, group="nj"))
     for which in ("paralinear", "logdet_tk", "logdet"):
         for r in (2, 3):
-            obs.append(Ob(f"estimator/{which}/r{r}", __name__, "mk_logdet", {"which": which, "r": r}, timeout=1200, group="estimators"))
+            obs.append(Ob(f"estimator/{which}/r{r}", __name__, "mk_logdet", {"which": which, "r": r}, timeout=1200, group="estimators", grade="realised-input"))
     for n in (3, 4, 5):
         obs.append(Ob(f"expand_duplicates/n{n}", __name__, "mk_expand", {"n": n}, timeout=900, twins=("end", "two_duplicates") if n > 3 else ("end", "two_duplicates"), group="duplicates"))
     for n in ([3, 4, 5] if T else [3, 4]):
